@@ -155,9 +155,11 @@ META["C11"] = {
              "relies on (park/move/restore interplay over all placement combinations, guard exactness over all small trees, mov "
              "templates), plus order/ref-count discipline of Substitute. The spanning-forest algorithm itself is not decided.",
     "design_ref": "DESIGN.md §4 C11 (R-MIRROR, R-SCRATCH, R-ORDER realised semantically)",
-    "note": "Narrow: necessary conditions on the backend hooks and on Substitute::code_statement; the generic parallel-move "
-            "algorithm over all maps is out of reach for this family.",
-    "technique": "static analysis: abstract interpretation of MIR emission functions + symbolic machine; dominator/provenance rules",
+    "note": "R-PMOVES decides the simultaneous-assignment semantics itself for every assignment map over 3 temporaries (thorough: 4) in "
+            "every register/spill placement: the generic algorithm is folded from MIR at each backend's instance and the emitted "
+            "moves are run on the symbolic machine. Larger maps are covered only through the per-piece rules (R-CYCLE guard exactness, "
+            "mov templates); the reference-count updates of Substitute are checked for order and count (R-ORDER), not per map.",
+    "technique": "static analysis: abstract interpretation of the generic parallel-moves algorithm (MIR, instantiated per backend) over all small assignment maps + symbolic machine; dominator/provenance rules",
 }
 META["C14"] = {
     "level": "Structural decision over the finite population of label-defining sites (string shapes recovered from MIR, including "
